@@ -334,7 +334,8 @@ def treeSize (g : DDag) : Nat → Nat → Nat
 namespace Tl
 
 inductive Ty where
-  | fixed (k : Nat) (isFlags : Bool)   -- Bool/#/int/long/int128/int256 (k bytes); isFlags: field named mode/flags
+  | fixed (k : Nat) (flags : Nat)      -- Bool/#/int/long/int128/int256 (k bytes); flags: 0 = ordinary field, 1 = field named
+                                       -- mode/flags read signed, 2 = read unsigned (`#` after the repair on fix/tl)
   | bytes (auto : Bool)                -- bytes/string; auto = content is re-parsed (not an "untouchable")
   | vec (elem : Option Nat)            -- (vector t): some s = bare schema s, none = boxed parse
   | sub (s : Option Nat)               -- some s = bare schema s, none = boxed parse
@@ -455,7 +456,8 @@ def fieldsLoop (rec : Bytes → Option Nat → Res) (data : Bytes) : List Field 
       | .raised s g => .raised (steps + 1 + s) g
       | .ok i' s =>
         let flags' := match fld.ty with
-          | .fixed k true => some (intOfLE (sl data i (i + k)))
+          | .fixed k 1 => some (intOfLE (sl data i (i + k)))
+          | .fixed k 2 => some ((natOfLE (sl data i (i + k)) : Nat) : Int)
           | _ => flags
         fieldsLoop rec data rest i' flags' (steps + 1 + s)
 
